@@ -127,6 +127,7 @@ pub fn run_case<V: VringT<GM> + Clone + Send + Sync + 'static>(case: &Value, tra
     let mut tokens: Vec<(String, usize, Vec<File>)> = Vec::new();
     let mut sentkinds: Vec<String> = Vec::new();
     let mut closed = false;
+    let mut ntimeouts = 0;
     for step in case["steps"].as_array().unwrap() {
         let op = step["op"].as_str().unwrap();
         // letters that act through the memory handle the backend was given, not through the connection
@@ -151,7 +152,7 @@ pub fn run_case<V: VringT<GM> + Clone + Send + Sync + 'static>(case: &Value, tra
             }
             "negotiate" => {
                 out = rig.negotiate(from_bits(&step["feats"]), from_bits(&step["pf"]));
-                status = "ok".into();
+                status = if out["set_features"] == "timeout" { "timeout".into() } else { "ok".into() };
             }
             "set_features" => {
                 status = rig.peer.request(2, &u64b(from_bits(&step["bits"])), &[], false).status;
@@ -651,6 +652,14 @@ pub fn run_case<V: VringT<GM> + Clone + Send + Sync + 'static>(case: &Value, tra
         trace.emit(e);
         if !workers_ok || status == "failed" {
             break;
+        }
+        if status == "timeout" {
+            // a daemon that has stopped answering (each such step is established by watchdog + blocked threads, i.e. seconds):
+            // two of them say all there is to say about this case
+            ntimeouts += 1;
+            if ntimeouts >= 2 {
+                break;
+            }
         }
         if status == "closed" {
             closed = true;
